@@ -38,9 +38,9 @@ static void fatal_handler(const char *msg) { fail_any("fatal", "iv_fatal: %s", m
 
 #define MAXINST 2
 #define MAXW 5
-#define MAXPEND 512
+#define MAXPEND 256
 struct mwatch { struct iv_inotify_watch *iv; char *path; int inst, idx, registered, wd; uint32_t mask; long nevents; int gen; };
-struct rec { int wd; uint32_t mask, cookie; char name[32]; int has_name; };
+struct rec { int wd; uint32_t mask, cookie; char name[264]; int has_name; };
 struct minst { struct iv_inotify *iv; int registered, fd; struct mwatch w[MAXW]; struct rec pend[MAXPEND]; int npend, head; long reads; };
 static struct minst inst[MAXINST]; static int ninst;
 static char root[160];
@@ -54,9 +54,11 @@ static void pathof(char *out, size_t n, const char *rel) { snprintf(out, n, "%s/
 /* ------------------------------------------------------------------ file system operations */
 static void fs_op(void)
 {
-	char a[256], b[256];
+	char a[600], b[600];
 	unsigned op = ch_n(12);
-	const char *f = (const char *[]){ "f0", "f1", "f2", "s0/g0", "s0/g1" }[ch_n(5)];
+	static char longname[260];
+	if (!longname[0]) { memset(longname, 'L', 250); longname[250] = 0; }     /* a name near NAME_MAX: the largest record the kernel can produce */
+	const char *f = (const char *[]){ "f0", "f1", "f2", "s0/g0", "s0/g1", longname }[ch_n(6)];
 	pathof(a, sizeof a, f);
 	switch (op) {
 	case 0: case 1: { int fd = open(a, O_CREAT | O_WRONLY, 0600); if (fd >= 0) close(fd); vz_log("  fs: create %s", f); } break;
